@@ -17,6 +17,7 @@ import (
 	"time"
 
 	"github.com/ipld/go-ipld-prime/codec"
+	"github.com/ipld/go-ipld-prime/codec/dagcbor"
 	bindnoderegistry "github.com/ipld/go-ipld-prime/node/bindnode/registry"
 	"github.com/libp2p/go-libp2p/core/network"
 	"github.com/libp2p/go-libp2p/core/peer"
@@ -229,8 +230,36 @@ const (
 	rbTruncated // stream ends inside the frame
 	rbOversize
 	rbEmpty
+	rbHostileStruct // well-formed DAG-CBOR of a schema-shaped but unacceptable struct (encoded by the real encoder)
 	nRealKinds
 )
+
+// hostileFrame encodes, through the real bindnode + DAG-CBOR encoder, a struct
+// that matches the schema but that fromIPLD must refuse: a block whose CID
+// prefix stops after k bytes, an ID of the wrong length, an unknown request
+// type.
+func hostileFrame(i int) []byte {
+	id := make([]byte, 16)
+	id[15] = byte(i + 1)
+	g := &ipldbind.GraphSyncMessage{}
+	switch k := verifrt.Choose("hostile-struct", 7); k {
+	case 0, 1, 2, 3:
+		full := []byte{0x01, 0x55, 0x12, 0x20}
+		g.Blocks = &[]ipldbind.GraphSyncBlock{{Prefix: full[:k], Data: []byte{1, 2, 3}}}
+	case 4:
+		g.Responses = &[]ipldbind.GraphSyncResponse{{Id: id[:15], Status: graphsync.RequestCompletedFull}}
+	case 5:
+		g.Requests = &[]ipldbind.GraphSyncRequest{{Id: append(id, 0), RequestType: graphsync.RequestTypeCancel}}
+	case 6:
+		g.Requests = &[]ipldbind.GraphSyncRequest{{Id: id, RequestType: "bogus"}}
+	}
+	payload, err := ipldbind.BindnodeRegistry.TypeToBytes(&ipldbind.GraphSyncMessageRoot{Gs2: g}, dagcbor.Encode)
+	if err != nil {
+		// the encoder itself refuses it: nothing a peer could have sent this way
+		verifrt.Assume(false)
+	}
+	return append(uvarint(uint64(len(payload))), payload...)
+}
 
 // VerifNet_StreamBytes (C12): the same stream-handler properties with nothing
 // stubbed below it: real frames, the real byte decoder.  Whether a mutated
@@ -268,6 +297,9 @@ func VerifNet_StreamBytes() {
 			fr = uvarint(network.MessageSizeMax + 1)
 		case rbEmpty:
 			fr = uvarint(0)
+		case rbHostileStruct:
+			fr = hostileFrame(i)
+			verifrt.Cover("hostile-struct")
 		}
 		_, err := mh.FromNet("p", bytes.NewReader(fr))
 		good[i] = err == nil
